@@ -805,6 +805,8 @@ def _selftest_pss(rng, counts):
             em_len = (em_bits + 7) // 8
             for slen in sorted({0, 1, hlen, em_len - hlen - 2,
                                 max(em_len - hlen - 3, 0)}):
+                if slen < 0:
+                    continue
                 if em_len < hlen + slen + 2:
                     try:
                         pss_encode(bytes(hlen), em_bits, bytes(slen), h, hlen)
@@ -977,7 +979,7 @@ def _selftest_openssl(rng, counts):
                 return f.read()
 
         # (a) OAEP
-        for md, mgfmd in (("sha256", None), ("sha1", None), ("sha512", None),
+        for md, mgfmd in (("sha256", None), ("sha1", None), ("sha384", None),
                           ("sha256", "sha1"), ("sha1", "sha256")):
             h = _hfn(md)
             hlen = len(h(b""))
